@@ -16,8 +16,8 @@ PARTIAL = {
 
 TECH = {
     "default": "Lean 4 theorems over a Level-A functional model (induction over histories, invariant InvA, all oracles) + differential correspondence run (Rust harness vs native Lean driver) with implementation-side monitors as failing-input search",
-    "C08": "Lean 4 theorems over a deep embedding of the size-estimation impls (induction on types) + differential run of ~60 concrete Rust types against the model",
-    "C09": "Lean 4 theorem heapSize = allocBytes by induction on types + counting global allocator differential run",
+    "C08": "Lean 4 theorems over a deep embedding of the size-estimation impls (induction on types), tied to the code twice: the impl table is regenerated from /repo/src/mem_size.rs by tools/memdecls.py on every run and proved (decide + per-row semantic theorems) to be the model's, and a differential run of ~145 concrete Rust types against the model",
+    "C09": "Lean 4 theorem heapSize = allocBytes by induction on types; impl table regenerated from /repo/src/mem_size.rs on every run (tools/memdecls.py) and proved to be the model's + counting global allocator differential run",
     "C07": "Lean 4 theorems over the Level-B pointer model (representation invariant Rep, refinement of every operation to Level A, induction over histories incl. iterators, drains, clones) + differential correspondence run with a pointer-validating hook walk of the real heap; thorough tier adds Miri as a search aid",
     "C16": "Lean 4 theorems over an explicit panic model at Level A (every callback point) and Level B (pointer structure at every abort point, reallocation guard, refinement from weak states, induction over histories with panics anywhere) + systematic panic injection in the differential run; thorough tier adds Miri as a search aid",
     "C19": "Lean 4 theorems: every &self operation returns the same Level-A value and the same Level-B pointer state + hook fingerprint before/after every &self call and concurrent reader threads in the differential run; thorough tier adds Miri (data-race detector) as a search aid",
